@@ -103,4 +103,32 @@ var checks = map[string]*check{
 			{Name: "failing-starts", Kind: "explore", Scen: "start_line", Inst: inst("fail-quick", "fail-thorough"), BatchN: 400, Depths: depths([]int{0}, []int{0}), Budget: budget(5*time.Minute, 40*time.Minute)},
 		},
 	},
+	"C02": {
+		Title: "Version negotiation settles both sides on the highest common version",
+		Level: "exploration",
+		Rule: "every pair (host version configuration, plugin version configuration) over legacy field in {none} + universe and every subset of the universe as versioned sets (universe {1,2,3} quick, {0,1,2,3} thorough), " +
+			"x GRPCServer nil/set x per-version wire protocol assignment x version-list variant (as sent, missing, with junk entries, duplicated): the real Client.Start (host half) joined to the real protocolVersion (plugin half) by the handshake line; " +
+			"pairs with >= 2 common versions are repeated so that map iteration order varies; non-trivial = either side has >= 2 versions",
+		Assumptions: []string{
+			"the harness prints the handshake line from protocolVersion's result exactly as Serve does (that one formatting step is checked against a real Serve process by C16)",
+			"map iteration order inside go-plugin cannot be controlled; multi-candidate pairs are run 3 (quick) / 6 (thorough) times",
+		},
+		Parts: []part{
+			{Name: "pairs", Kind: "explore", Scen: "version_pair", BatchN: 400, Depths: depths([]int{0}, []int{0}), Budget: budget(5*time.Minute, 30*time.Minute)},
+		},
+	},
+	"C19": {
+		Title: "A Client launches its plugin at most once and its accessors are idempotent",
+		Level: "model_checking",
+		Rule: "sequential: every call sequence of length <= 3 (quick) / <= 5 (thorough) over {Start, Client, Protocol, ReattachConfig, ID, Exited, Kill} x plugin behaviour {healthy net/rpc, healthy gRPC, bad handshake, silent until timeout, RunnerFunc error} against a reference (launch count, identical address, identical client, no launch after Kill); " +
+			"concurrent: every unordered pair (thorough: triples and 2x2) of operations from {Start, Client, Kill, Protocol, ReattachConfig} on one Client under every schedule with <= d deviations; non-trivial = >= 2 calls / >= 2 alternatives at some decision point",
+		Assumptions: []string{
+			"custom-runner launch (RunnerFunc) — with Cmd a second launch is refused by os/exec itself",
+			"data races of retried Start are the race pass's subject (C20), not this check's",
+		},
+		Parts: []part{
+			{Name: "sequences", Kind: "explore", Scen: "once_seq", BatchN: 100, Depths: depths([]int{0}, []int{0}), Budget: budget(3*time.Minute, 30*time.Minute)},
+			{Name: "concurrent", Kind: "explore", Scen: "once_conc", Depths: depths([]int{2}, []int{2, 3}), Budget: budget(3*time.Minute, 20*time.Minute)},
+		},
+	},
 }
